@@ -1090,3 +1090,40 @@ Proof.
     + apply step_RI_J; auto; [exact model_sem_sane | apply Hc; now left].
     + destruct (pexact_model_coversP n Hx) as [C U]. apply step_RI_P; auto. now apply pexact_model_noP.
 Qed.
+
+(* ------------------------------------------------------------------ select_subnet = restriction to the region *)
+Lemma subnet_rows cs js n tn r : special tn = false -> (forall c, In c (r_cells r) -> c_kind c <> KP) ->
+  (In r (rows_of tn (step spec_sem (Select cs js) n)) <->
+   In r (rows_of tn n) /\ (exists c, In c (r_cells r) /\ c_kind c = KJ) /\
+   (forall c, In c (r_cells r) -> c_kind c = KJ -> In (c_val c) js)).
+Proof.
+  intros S HnoP.
+  change (step spec_sem (Select cs js) n) with (select (on_cell (selJ spec_sem cs)) (on_cell (selP spec_sem)) js n).
+  unfold select. rewrite rows_of_filter_rows, filter_In.
+  unfold special in S. repeat (apply orb_false_iff in S; destruct S as [S ?]).
+  assert (P : forall (a b c d : bool), (if String.eqb tn "junction" || String.eqb tn "junction_geodata" then a
+             else if String.eqb tn "pipe_geodata" then b else if prefix "res_" tn then c else d) = d).
+  { intros. rewrite S, H0, H, H1. reflexivity. }
+  rewrite P.
+  assert (F : forallb (fun c => negb (on_cell (selP spec_sem) tn c) ||
+                 memz (c_val c) (kept_labels (on_cell (selJ spec_sem cs)) js n "pipe")) (r_cells r) = true).
+  { apply forallb_forall. intros c Hc. unfold on_cell. simpl.
+    destruct (c_kind c) eqn:K; simpl; auto. exfalso. exact (HnoP c Hc K). }
+  rewrite F, andb_true_r. unfold keep_row. rewrite andb_true_iff, existsb_exists, forallb_forall.
+  unfold on_cell. simpl. split.
+  - intros [Hr [[c [Hc Kc]] Hall]]. split; auto. split.
+    + exists c. split; auto. now apply kj_iff.
+    + intros c0 Hc0 K0. specialize (Hall c0 Hc0). rewrite K0 in Hall. simpl in Hall. now apply memz_In.
+  - intros [Hr [[c [Hc Kc]] Hall]]. split; auto. split.
+    + exists c. split; auto. now apply kj_iff.
+    + intros c0 Hc0. destruct (kind_is_kj (c_kind c0)) eqn:K0; simpl; auto.
+      apply memz_In. apply Hall; auto. now apply kj_iff.
+Qed.
+
+Lemma subnet_junctions cs js n l s :
+  In l (labels_of "junction" (step s (Select cs js) n)) <-> In l (labels_of "junction" n) /\ In l js.
+Proof.
+  simpl. unfold select. rewrite !labels_of_rows_of, rows_of_filter_rows, !in_map_iff. split.
+  - intros [r [E Hr]]. apply filter_In in Hr. destruct Hr as [Hr K]. simpl in K. subst l. split; eauto. now apply memz_In.
+  - intros [[r [E Hr]] Hj]. subst l. exists r. split; auto. apply filter_In. split; auto. simpl. now apply memz_In.
+Qed.
